@@ -294,4 +294,75 @@ theorem two_fac_ui_spec_partial (n : ℕ) (hn : n < B)
   · exact two_fac_odd (2 * k + 1) hn (by omega) (fun _ => hsw)
 example : mpz_2fac_ui 1801 = doubleFactorial 1801 := by decide +kernel
 
+/-! ## mpz_remove -/
+
+/-- mpz_remove (model of mpz/remove.c: scan for f = 2, otherwise divide by f, f², f⁴, ... then back down):
+    for every x ≠ 0 and f ≥ 2 the result (r, c) satisfies x = r·f^c and f ∤ r — all occurrences of the
+    factor are removed and c is their number. -/
+theorem remove_spec (x f : ℤ) (hf : 2 ≤ f) (hx : x ≠ 0) :
+    ∃ r c, mpz_remove x f = some (r, c) ∧ x = r * f ^ c ∧ ¬ f ∣ r := by
+  unfold mpz_remove
+  have h1 : ¬ f ≤ 1 := by omega
+  simp only [h1, hx, if_false]
+  have ha0 : x.natAbs ≠ 0 := by omega
+  by_cases h2 : f = 2
+  · subst h2
+    simp only [if_true]
+    obtain ⟨e1, e2⟩ := ctzAux_spec (x.natAbs.log2 + 1) x.natAbs ha0 Nat.lt_log2_self
+    have hnd : ¬ 2 ∣ x.natAbs >>> ctzAux (x.natAbs.log2 + 1) x.natAbs := by omega
+    obtain ⟨s1, s2⟩ := signed_factor x _ 2 _ e1 hnd
+    exact ⟨_, _, rfl, s1, s2⟩
+  · simp only [h2, if_false]
+    have hF : 3 ≤ f.toNat := by omega
+    obtain ⟨m1, m2⟩ := mpz_remove_nat x.natAbs f.toNat ha0 hF
+    obtain ⟨s1, s2⟩ := signed_factor x _ f.toNat _ m1 m2
+    have hfc : ((f.toNat : ℕ) : ℤ) = f := Int.toNat_of_nonneg (by omega)
+    rw [hfc] at s1 s2
+    exact ⟨_, _, rfl, s1, s2⟩
+
+example : mpz_remove (-2 ^ 70 * 3 ^ 5 * 7) 3 = some (-2 ^ 70 * 7, 5) ∧ mpz_remove 96 2 = some (3, 5) ∧
+    mpz_remove (17 ^ 33) 17 = some (1, 33) := by decide +kernel
+
+/-- f ≤ 1 (0, 1 and every negative f) raises DIVIDE_BY_ZERO in the C; 0 stays 0 -/
+theorem remove_exceptions (x f : ℤ) : (f ≤ 1 → mpz_remove x f = none) ∧ (2 ≤ f → mpz_remove 0 f = some (0, 0)) := by
+  unfold mpz_remove
+  constructor
+  · intro h; simp [h]
+  · intro h; have : ¬ f ≤ 1 := by omega
+    simp [this]
+example : mpz_remove 5 1 = none ∧ mpz_remove 5 (-3) = none ∧ mpz_remove 0 7 = some (0, 0) := by decide +kernel
+
+/-! ## Binomials -/
+
+/-- mpz_bin_ui (model of mpz/bin_ui.c: sign rule for negative n, the bin(n,k) = bin(n,n-k) rewrite, the
+    accumulate-and-divide loop whose DIVIDE steps are proved exact) for EVERY integer n and every k:
+    binomial(n,k) for n ≥ 0 and (-1)^k binomial(-n+k-1,k) for n < 0. -/
+theorem bin_ui_spec (n : ℤ) (k : ℕ) :
+    mpz_bin_ui n k = if 0 ≤ n then ((n.toNat.choose k : ℕ) : ℤ)
+      else (-1) ^ k * ((((-n).toNat + k - 1).choose k : ℕ) : ℤ) :=
+  mpz_bin_ui_eq n k
+example : mpz_bin_ui (-7) 3 = -84 ∧ mpz_bin_ui (2 ^ 70) 2 = 2 ^ 69 * (2 ^ 70 - 1) ∧ mpz_bin_ui 5 9 = 0 := by decide +kernel
+
+/-- the executable spec `binom` used by the driver is `Nat.choose` -/
+theorem binom_spec (n k : ℕ) : binom n k = n.choose k := binom_eq_choose n k
+example : binom 67 33 = 14226520737620288370 := by decide +kernel
+
+/-- mpz_bin_uiui for every n up to ODD_FACTORIAL_EXTTABLE_LIMIT and EVERY k: the k > n, k < 2 and
+    `bc_bin_uiui` branches (odd-factorial table × two inverse-table entries × shift, all in limb
+    arithmetic) give exactly binomial(n,k). -/
+theorem bin_uiui_small_spec (n k : ℕ) (hn : n ≤ ODD_FACTORIAL_EXTTABLE_LIMIT) :
+    mpz_bin_uiui n k = some (n.choose k) := by
+  have hdec : ∀ n < ODD_FACTORIAL_EXTTABLE_LIMIT + 1, ∀ k < n + 1, mpz_bin_uiui n k = some (binom n k) := by
+    decide +kernel
+  by_cases hk : k ≤ n
+  · rw [hdec n (by omega) k (by omega), binom_eq_choose]
+  · have hlt : n < k := by omega
+    unfold mpz_bin_uiui binDispatch
+    simp [hlt, Nat.choose_eq_zero_of_lt hlt]
+example : mpz_bin_uiui 67 33 = some 14226520737620288370 ∧ binDispatch 67 33 = (.bc, 33) := by decide +kernel
+
+/- NOT PROVED as theorems: the other branches of mpz_bin_uiui (smallk, smallkdc, bdiv, Goetgheluck) for
+   n > ODD_FACTORIAL_EXTTABLE_LIMIT.  Their models are compared with the implementation and with
+   `binom` on a grid over every dispatch region and border on every run (see tools/props/c16_numth.py). -/
+
 end Mpir.Numth
